@@ -164,7 +164,9 @@ unary_sync!(b_mag2, "ComplexToMag2", Complex, f32, |s: &mut Src, n| gen_complex_
 unary_sync!(b_map, "Map", u8, u32, |s: &mut Src, n| gen_u8_vec(s, n),
     |s: &mut Src, r| { let k = s.below(1000) as u32; let (b, o) = MapBuilder::new(r, move |x: u8| (x as u32) * 3 + k).name("m").build(); (Box::new(b) as _, o, format!("k {k}"), Box::new(move |x: &[u8]| x.iter().map(|a| (*a as u32) * 3 + k).collect()) as _) },
     (), ());
-unary_sync!(b_nrzi, "NrziDecode", u8, u8, |s: &mut Src, n| gen_bits(s, n),
+// (documented as equivalent to Tee -> Delay(1) -> Xor -> XorConst(1): defined
+// for every byte value, not only for bits)
+unary_sync!(b_nrzi, "NrziDecode", u8, u8, |s: &mut Src, n| if s.chance(1, 4) { gen_u8_vec(s, n) } else { gen_bits(s, n) },
     |_s: &mut Src, r| { let (b, o) = NrziDecode::new(r); (Box::new(b) as _, o, String::new(), Box::new(move |x: &[u8]| { let mut prev = 0u8; x.iter().map(|a| { let o = 1 ^ a ^ prev; prev = *a; o }).collect() }) as _) },
     (), ());
 
@@ -651,6 +653,67 @@ fn b_vec_to_stream(src: &mut Src, env: &Env) -> Case {
             pos += l;
         }
         vec![t]
+    }));
+    c
+}
+
+/// PduWriter together with the directory it writes to (removed with the case).
+struct PduWriterInDir {
+    inner: PduWriter<u8>,
+    dir: tempfile::TempDir,
+}
+impl rustradio::block::BlockName for PduWriterInDir {
+    fn block_name(&self) -> &str {
+        self.inner.block_name()
+    }
+}
+impl rustradio::block::BlockEOF for PduWriterInDir {
+    fn eof(&mut self) -> bool {
+        self.inner.eof()
+    }
+}
+impl rustradio::block::Block for PduWriterInDir {
+    fn work(&mut self) -> rustradio::Result<rustradio::block::BlockRet> {
+        let _ = &self.dir;
+        self.inner.work()
+    }
+}
+
+fn b_pdu_writer(src: &mut Src, _env: &Env) -> Case {
+    let np = src.range(0, 6);
+    let mut packets: Vec<Vec<u8>> = Vec::new();
+    for _ in 0..np {
+        let l = match src.below(5) {
+            0 => 0, // Il2pDeframer emits empty PDUs for headers
+            1 => 1,
+            _ => src.range(1, 300),
+        };
+        packets.push(gen_u8_vec(src, l));
+    }
+    let (p, r) = NcIn::new(packets);
+    let dir = tempfile::tempdir().expect("tempdir");
+    let path = dir.path().to_path_buf();
+    let inner = PduWriter::<u8>::new(r, path.clone());
+    let mut c = Case::new("PduWriter", format!("{np} packets"), Box::new(PduWriterInDir { inner, dir }));
+    c.ins = vec![p];
+    // Files are named by the microsecond they were written in, so two PDUs
+    // written within one microsecond would share a name: only inclusion is
+    // checked (every file holds exactly one of the PDUs), not the count.
+    c.reference = Some(Box::new(move |c, _complete| {
+        let packets = &c.in_nc::<Vec<u8>>(0).packets;
+        let Ok(rd) = std::fs::read_dir(&path) else { return Ok(()) };
+        let mut n = 0;
+        for e in rd.flatten() {
+            n += 1;
+            let content = std::fs::read(e.path()).unwrap_or_default();
+            if !packets.iter().any(|p| *p == content) {
+                return Err(format!("PduWriter: file {:?} holds {} bytes that are none of the {} PDUs", e.file_name(), content.len(), packets.len()));
+            }
+        }
+        if n > packets.len() {
+            return Err(format!("PduWriter: {n} files for {} PDUs", packets.len()));
+        }
+        Ok(())
     }));
     c
 }
@@ -1418,6 +1481,21 @@ fn b_hasher(src: &mut Src, env: &Env) -> Case {
     let mut c = Case::new("Hasher", format!("len {n}"), Box::new(blk));
     c.ins = vec![p];
     c.outs = vec![NcOut::new(o, ser_vec::<u8>)];
+    // "Hash input until EOF, outputting the results": the digest is pushed
+    // when the block is dropped.
+    c.finish_by_drop = true;
+    c.reference = Some(Box::new(|c, complete| {
+        use sha2::Digest;
+        let got = &c.out_nc::<Vec<u8>>(0).got;
+        if !complete {
+            return Ok(());
+        }
+        let want = sha2::Sha512::digest(&c.in_typed::<u8>(0).data).to_vec();
+        if got.len() != 1 || got[0] != want {
+            return Err(format!("Hasher: {} packets delivered after the block was dropped ({:02x?}...), expected exactly the SHA-512 of the {} input bytes", got.len(), got.first().map(|g| &g[..g.len().min(4)]), c.in_typed::<u8>(0).data.len()));
+        }
+        Ok(())
+    }));
     c
 }
 
@@ -1512,7 +1590,8 @@ pub fn registry() -> Vec<Adapter> {
         ad!("VectorSource", b_vector_source, true, false, false),
         ad!("NullSink", b_null_sink, true, false, false),
         ad!("VectorSink", b_vector_sink, true, false, false),
-        ad!("Hasher", b_hasher, false, false, false),
+        ad!("Hasher", b_hasher, true, false, false),
+        ad!("PduWriter", b_pdu_writer, true, false, false),
         ad!("DebugFilter", b_debug_filter, false, false, false),
         ad!("Midpointer", b_midpointer, false, false, false),
         ad!("Wpcr", b_wpcr, false, false, false),
